@@ -417,7 +417,7 @@ def main(argv=None):
     a = ap.parse_args(argv)
     if a.pid == "selftest":
         from dsim import selftest
-        return selftest.main(a.tier)
+        return selftest.main(a.tier, PROPS)
     if a.pid not in PROPS:
         print("unknown property " + a.pid)
         return 2
